@@ -394,6 +394,16 @@ def check_container(case) -> Result:
               lambda fragments, mz_spectra, intensity_spectra: pt.match_spectra(fragments, mz_spectra, 0.5, 'th', 'largest', intensity_spectra))
         probe('binomial_score', {'fragments': sorted(f.mz for f in frags), 'mz_spectra': srt},
               lambda fragments, mz_spectra: pt.binomial_score(fragments, mz_spectra, 0.5, 'th'))
+        # a Fragment describes itself the same way whatever was asked of it (or of a list containing it) before
+        fresh = pt.fragment('PEKTIDE', ['b', 'y'], [1, 2])
+        f0 = fresh[order[0] % len(fresh)]
+        first = (list(f0.to_dict().items()), len(list(f0)))
+        _ = (f0.label, f0.number)
+        pt.filter_missing_mono_isotope(list(fresh))
+        later = (list(f0.to_dict().items()), len(list(f0)))
+        if first != later:
+            r.fail('the same result on the first call and after other calls', 'C08/history-dependent-result/Fragment.to_dict',
+                   first_keys=[k for k, _v in first[0]], later_keys=[k for k, _v in later[0]], first_len=first[1], later_len=later[1])
     elif kind == 'mod-lists':
         vals = case['mods']
         res = probe('create_annotation', {'nterm_mods': list(vals), 'internal_mods': {1: list(vals), 2: vals[0]}, 'labile_mods': list(vals)},
